@@ -23,12 +23,15 @@ Inductive case :=
    payload, ANY text the codec reads back as the same documents is a serialised payload; the bytes a reference
    compressor / serialiser would have produced are not part of the promise and not part of the case *)
 | CMake (zstd : option N) (envelope : bytes) (dec_ok : bool) (parse_plain parse_dec : option bool)
-(* Package.to_str(config): format, zstd, outcome class (Ok = string equals the bytes decoded) *)
-| CStr (f : format) (zstd : option N) (utf8 : bool) (obs : outcome)
+(* Package.to_str(config): format, zstd, and what happened: OOk same = a string was returned, and
+   Package.from_str of it gave a package with the same documents (same = false: it did not, or raised);
+   any other outcome = to_str itself raised (class).  The property prescribes no exception class here *)
+| CStr (f : format) (zstd : option N) (obs : outcome)
 (* Package.from_bytes(input): oracle answers for this input, observed outcome *)
 | CRead (valid : bool) (input : bytes) (dec_ok : bool) (parse_plain parse_dec : option bool) (obs : outcome)
-(* EnvelopeHeader.from_bytes on MAGIC + every (format, flags) pair: the accepted ones *)
-| CSweep (accepted : list (N * N * (N * bool))) (n_value_errors n_other : N)
+(* EnvelopeHeader.from_bytes on MAGIC + every (format, flags) pair: the accepted ones with the decoded
+   fields, the pairs at which something other than ValueError was raised, the number of ValueErrors *)
+| CSweep (accepted : list (N * N * (N * bool))) (others : list (N * N)) (n_value_errors : N)
 (* EnvelopeHeader.from_bytes on every prefix of an envelope: lengths that were accepted, lengths at which
    something other than ValueError was raised, number of ValueErrors *)
 | CTrunc (envelope : bytes) (accepted_lengths other_lengths : list nat) (n_value_errors : nat)
@@ -38,8 +41,12 @@ Inductive case :=
    documents" are those of a fresh, never-encoded package built with the same contents — and the outcome of
    decoding that envelope (Package.from_bytes / from_str), compared with the fresh package's documents *)
 | CSeq (hist : list hstep) (envelope : bytes) (dec_ok : bool) (parse_plain parse_dec : option bool) (obs : outcome)
-(* an encoding of a JSON configuration (or building the package) raised: exception class only *)
-| CRaised (obs : outcome).
+(* an encoding with a JSON configuration raised: exception class only *)
+| CRaised (obs : outcome)
+(* nothing to judge: the change kind is not available in this implementation (a configuration object that
+   refuses in-place assignment is replaced, not skipped; this is for: a default configuration that is not a
+   JSON one / not readable and cannot be encoded offline, a package that could not be built) *)
+| CSkip.
 
 Definition marker : bytes := [0].
 Definition oracle_parse (pp pd : option bool) (b : bytes) : option bool :=
@@ -62,6 +69,19 @@ Definition model_accepted : list (N * N * (N * bool)) :=
     | Err _ => []
     end) pairs256.
 Definition acc_eqb := pair_eqb (pair_eqb N.eqb N.eqb) (pair_eqb N.eqb Bool.eqb).
+Definition key_eqb := pair_eqb N.eqb N.eqb.
+(* the two headers the encoder writes for a JSON configuration *)
+Definition json_headers : list (N * N) := [(63, 64); (63, 65)].
+(* bits 1-5 of the flags byte are reserved: the property fixes bit 0 and bits 7,6 only.  Envelopes are compared
+   with the model's up to those bits *)
+Definition flags_mask : N := 193.   (* 0b11000001 *)
+Fixpoint mask_flags_at (n : nat) (e : bytes) : bytes :=
+  match e, n with
+  | [], _ => []
+  | b :: r, O => N.land b flags_mask :: r
+  | b :: r, S n => b :: mask_flags_at n r
+  end.
+Definition envelope_eqb (a b : bytes) : bool := bytes_eqb (mask_flags_at 9 a) (mask_flags_at 9 b).
 
 (* the history run through the model: contents = number of changes so far.  The oracles answer with the
    implementation's own bytes (`body` = what follows the header of the last envelope): the serialiser for the
@@ -105,18 +125,39 @@ Definition corr (c : case) : bool :=
          (parse (dump p) = p, decompress (compress x) = x) are checked on those answers *)
       match make_envelope unit (fun _ => skipn 10 envelope) (fun _ _ => skipn 10 envelope) tt
                           {| cformat := JSON; czstd := z |} with
-      | Ok e => bytes_eqb e envelope
+      | Ok e => envelope_eqb e envelope
       | Err _ => false
       end && payload_ok z dec_ok pp pd
-  | CStr f z utf8 obs =>
-      outcome_eqb obs
-        (match f with
-         | JSON => if utf8 then OOk true else ODecodeError
-         | _ => OValueError
-         end)
-  | CRead valid input dec_ok pp pd obs => outcome_eqb obs (read_model input dec_ok pp pd)
-  | CSweep acc nve nother =>
-      list_eqb acc_eqb acc model_accepted && (nve =? 65536 - N.of_nat (length model_accepted)) && (nother =? 0)
+  | CStr f z obs =>
+      (* the model's make_envelope_str with the oracles of this case: refuses a format that is not
+         ASCII-printable; an uncompressed JSON envelope is text and reads back; a compressed one is outside the
+         property (no text encoding of it exists: any refusal; if a string does come back it must read back) *)
+      match make_envelope_str unit (fun _ => []) (fun _ _ => []) (fun _ => true) tt
+                              {| cformat := f; czstd := z |} with
+      | Ok _ => match z with
+                | None => outcome_eqb obs (OOk true)
+                | Some _ => match obs with OOk same => same | _ => true end
+                end
+      | Err _ => match obs with OOk _ => false | _ => true end
+      end
+  | CRead valid input dec_ok pp pd obs =>
+      (* what the model's header decoder rejects is a ValueError; a valid envelope decodes as the model says
+         with the oracles' answers; any other input (a header the decoder accepts in front of a damaged or
+         foreign payload) is outside the property: outcome and exception class are not compared *)
+      match header_from_bytes input with
+      | Err _ => outcome_eqb obs OValueError
+      | Ok _ => if valid then outcome_eqb obs (read_model input dec_ok pp pd) else true
+      end
+  | CSweep acc others nve =>
+      (* compared with the model on what the property promises: every pair the model rejects (unknown format
+         byte) is a ValueError, every accepted pair is accepted by the model with the same decoded fields, the
+         encoder's own headers are accepted.  Whether the pairs with a known format byte and unusual flags are
+         all accepted (the model: yes, 768 pairs) is a diagnostic of the harness, not a verdict *)
+      forallb (fun a => mem acc_eqb a model_accepted) acc &&
+      forallb (fun k => mem key_eqb k (map fst model_accepted)) others &&
+      nodupb key_eqb (map fst acc) &&
+      (nve + N.of_nat (length acc) + N.of_nat (length others) =? 65536) &&
+      forallb (fun k => mem key_eqb k (map fst acc)) json_headers
   | CTrunc env lens others nve =>
       let ok := filter (fun n => match header_from_bytes (firstn n env) with Ok _ => true | _ => false end)
                        (seq 0 (S (length env))) in
@@ -124,30 +165,42 @@ Definition corr (c : case) : bool :=
       match others with [] => true | _ => false end
   | CSeq h envelope dec_ok pp pd obs =>
       match hist_last h (skipn 10 envelope) with
-      | Some (v, Ok e) => (v =? n_muts h) && bytes_eqb e envelope
+      | Some (v, Ok e) => (v =? n_muts h) && envelope_eqb e envelope
       | _ => false
       end &&
       match hist_zstd h with Some z => payload_ok z dec_ok pp pd | None => false end &&
       outcome_eqb obs (read_model envelope dec_ok pp pd)
   | CRaised _ => false          (* the model encodes every JSON configuration *)
+  | CSkip => true
   end.
 
 (* monitor: the documented format, stated directly on the observations *)
 Definition mon (c : case) : bool :=
   match c with
   | CMake z envelope dec_ok pp pd => header_documented z envelope && payload_ok z dec_ok pp pd
-  | CStr f z utf8 obs =>
-      match f with JSON => true | _ => outcome_eqb obs OValueError end
+  | CStr f z obs =>
+      (* text encoding is offered only for ASCII-printable formats: no string comes back for the others (HOW
+         it is refused is not prescribed); a string that does come back decodes to the same documents; the
+         uncompressed JSON configuration can be encoded as text *)
+      match f, z with
+      | JSON, None => outcome_eqb obs (OOk true)
+      | JSON, Some _ => match obs with OOk same => same | _ => true end
+      | _, _ => match obs with OOk _ => false | _ => true end
+      end
   | CRead valid input dec_ok pp pd obs =>
       if valid then outcome_eqb obs (OOk true) else
       if Nat.ltb (length input) 10 || negb (bytes_eqb (firstn 8 input) MAGIC) ||
          negb (mem N.eqb (nth 8 input 0) [1; 2; 63])
       then outcome_eqb obs OValueError
-      else match obs with OOk same => same | _ => true end
-  | CSweep acc nve nother =>
-      forallb (fun '(fb, fl, (fv, z)) => mem N.eqb fb [1; 2; 63] && (fv =? fb) && Bool.eqb z (N.odd fl)) acc &&
-      (N.of_nat (length acc) =? 768) && (nve =? 65536 - 768) && (nother =? 0) &&
-      nodupb (pair_eqb N.eqb N.eqb) (map fst acc)
+      else true      (* a damaged or foreign envelope behind an acceptable header: nothing is promised *)
+  | CSweep acc others nve =>
+      (* unknown format byte => ValueError (neither accepted nor another exception class); an accepted header
+         decodes to its format byte and to bit 0 of the flags; the headers the encoder writes are accepted *)
+      forallb (fun '(fb, fl, (fv, z)) => known_format fb && (fv =? fb) && Bool.eqb z (N.odd fl)) acc &&
+      forallb (fun '(fb, fl) => known_format fb) others &&
+      nodupb key_eqb (map fst acc) &&
+      (nve + N.of_nat (length acc) + N.of_nat (length others) =? 65536) &&
+      forallb (fun k => mem key_eqb k (map fst acc)) json_headers
   | CTrunc env lens others nve =>
       (* every prefix: shorter than a header, other magic number or unknown format byte => ValueError (not
          decoded, and no other exception class); otherwise decoded *)
@@ -166,4 +219,5 @@ Definition mon (c : case) : bool :=
       | None => false
       end
   | CRaised _ => false
+  | CSkip => true
   end.
